@@ -11,6 +11,7 @@ import (
 )
 
 type Clause struct {
+	Mode  string // "" = always; otherwise the clause belongs to the named contract mode (see `at F K mode M`)
 	Label string
 	Src   string
 	E     SExpr
@@ -30,10 +31,12 @@ type Contract struct {
 	Modifies []string
 	ModGiven bool
 	Ats      map[string][]Clause // call-site assertions keyed "Name#k"
+	Modes    map[string]string   // contract mode used at a call site, keyed "Name#k"
 	Loops    map[int][]Clause // invariants by loop ordinal (1-based, source order of loop headers)
 	LoopMod  map[int][]string
 	LoopAssume map[int][]Clause // assumed (NOT proved) facts at a loop head; each is listed in the evidence
 	Interf   []Interference
+	AtLocks  []AtLock
 	Options  map[string]string
 	Assumed  bool   // trusted contract: used at call sites, not verified against a body
 	File     string // where it was declared
@@ -48,7 +51,16 @@ type Interference struct {
 	Pred    Clause
 }
 
+// AtLock: when the function acquires Lock (and does not hold it already), the listed locations may have been
+// changed by other threads since they were last read: they are forgotten (and re-assumed under the optional rely).
+type AtLock struct {
+	Lock  string
+	Items []string
+	Pred  *Clause
+}
+
 type PureFn struct {
+	Opaque bool
 	Pkg    string
 	Name   string
 	Params []Param
@@ -86,7 +98,7 @@ var labelRe = regexp.MustCompile(`^\[([A-Za-z0-9_.:\-]+)\]\s*`)
 
 var clauseKeywords = map[string]bool{"func": true, "pure": true, "lemma": true, "props": true, "requires": true, "ensures": true,
 	"modifies": true, "loop": true, "option": true, "assumed": true, "package": true, "transparent": true, "opaque": true,
-	"hyp": true, "concl": true, "end": true, "at": true, "interfere": true, "ghostmap": true, "constglobal": true, "havoc": true}
+	"hyp": true, "concl": true, "end": true, "at": true, "interfere": true, "atlock": true, "ghostmap": true, "constglobal": true, "havoc": true}
 
 // parseContractText parses the //@ lines of one file. defaultPkg is the package path the file
 // belongs to (for /repo files) or "" (prelude files must use `package` lines).
@@ -131,6 +143,12 @@ func (db *ContractDB) parseContractText(file, text, defaultPkg string) error {
 			c.Label = m[1]
 			rest = rest[len(m[0]):]
 		}
+		if strings.HasPrefix(rest, "@") {
+			if i := strings.IndexAny(rest, " \t"); i > 0 {
+				c.Mode = rest[1:i]
+				rest = strings.TrimSpace(rest[i:])
+			}
+		}
 		c.Src = rest
 		e, err := parseSpec(rest)
 		if err != nil {
@@ -163,11 +181,19 @@ func (db *ContractDB) parseContractText(file, text, defaultPkg string) error {
 			}
 		case "pure":
 			// pure name(a T, b U) = expr
-			m := regexp.MustCompile(`^([A-Za-z0-9_]+)\(([^)]*)\)\s*=\s*(.*)$`).FindStringSubmatch(c.rest)
+			rest := c.rest
+			opq := false
+			if strings.HasPrefix(rest, "opaque ") {
+				// pure opaque p(..) = E : p is replaced by a propositional atom per distinct expansion; obligations are
+				// first tried with the atoms uninterpreted and only then with their definitions
+				opq = true
+				rest = strings.TrimSpace(rest[7:])
+			}
+			m := regexp.MustCompile(`^([A-Za-z0-9_]+)\(([^)]*)\)\s*=\s*(.*)$`).FindStringSubmatch(rest)
 			if m == nil {
 				return fmt.Errorf("%s:%d: bad pure definition", file, c.line)
 			}
-			pf := &PureFn{Pkg: pkg, Name: m[1], Src: m[3]}
+			pf := &PureFn{Pkg: pkg, Name: m[1], Src: m[3], Opaque: opq}
 			pf.Params = parseParams(m[2])
 			e, err := parseSpec(m[3])
 			if err != nil {
@@ -199,7 +225,7 @@ func (db *ContractDB) parseContractText(file, text, defaultPkg string) error {
 			}
 		case "func":
 			key := strings.TrimSpace(c.rest)
-			cur = &Contract{Pkg: pkg, FuncKey: key, Ats: map[string][]Clause{}, Loops: map[int][]Clause{}, LoopAssume: map[int][]Clause{}, LoopMod: map[int][]string{}, Options: map[string]string{}, File: file, Line: c.line}
+			cur = &Contract{Pkg: pkg, FuncKey: key, Modes: map[string]string{}, Ats: map[string][]Clause{}, Loops: map[int][]Clause{}, LoopAssume: map[int][]Clause{}, LoopMod: map[int][]string{}, Options: map[string]string{}, File: file, Line: c.line}
 			if old, dup := db.Contracts[pkg+"::"+key]; dup {
 				return fmt.Errorf("%s:%d: duplicate contract for %s (also %s:%d)", file, c.line, key, old.File, old.Line)
 			}
@@ -277,6 +303,11 @@ func (db *ContractDB) parseContractText(file, text, defaultPkg string) error {
 		case "at":
 			// at NAME K assert EXPR
 			f := strings.Fields(c.rest)
+			if cur != nil && len(f) == 4 && f[2] == "mode" {
+				// at NAME K mode M : the call uses the callee's contract in mode M (its @M clauses apply)
+				cur.Modes[f[0]+"#"+f[1]] = f[3]
+				continue
+			}
 			if cur == nil || len(f) < 4 || !(f[2] == "assert" || (f[2] == "after" && f[3] == "assert")) {
 				return fmt.Errorf("%s:%d: bad at clause (at NAME K [after] assert EXPR)", file, c.line)
 			}
@@ -314,8 +345,32 @@ func (db *ContractDB) parseContractText(file, text, defaultPkg string) error {
 			}
 			itf.Pred = cl
 			cur.Interf = append(cur.Interf, itf)
+		case "atlock":
+			// atlock LOCKEXPR havoc ITEMS [: RELY]
+			if cur == nil {
+				return fmt.Errorf("%s:%d: atlock outside func", file, c.line)
+			}
+			rest := c.rest
+			al := AtLock{}
+			if i := strings.Index(rest, " : "); i >= 0 {
+				cl, err := mkClause(strings.TrimSpace(rest[i+3:]), c.line)
+				if err != nil {
+					return err
+				}
+				al.Pred = &cl
+				rest = rest[:i]
+			}
+			j := strings.Index(rest, " havoc ")
+			if j < 0 {
+				return fmt.Errorf("%s:%d: bad atlock clause", file, c.line)
+			}
+			al.Lock = strings.TrimSpace(rest[:j])
+			for _, n := range strings.Split(rest[j+7:], ",") {
+				al.Items = append(al.Items, strings.TrimSpace(n))
+			}
+			cur.AtLocks = append(cur.AtLocks, al)
 		case "ghostmap":
-			// ghostmap NAME int|bool
+			// ghostmap NAME int|bool|int2|bool2
 			f := strings.Fields(c.rest)
 			if len(f) != 2 {
 				return fmt.Errorf("%s:%d: bad ghostmap", file, c.line)
